@@ -69,7 +69,22 @@ func c05History(e *vh.Env, sys *Sys, label string, idx int, weights map[string]i
 		switch k := r.Intn(10); {
 		case k < 4:
 			n := 1 + r.Intn(400)
-			pickSeq(sys, n)
+			for _, x := range pickSeq(sys, n) {
+				// no pick, at any point of the history, may return an ejected or unknown backend
+				nElig := 0
+				for n := range weights {
+					if !ejected[n] {
+						nElig++
+					}
+				}
+				if x == "" && nElig == 0 {
+					continue // nothing is eligible: no pick is the right answer
+				}
+				if _, member := weights[x]; !member || ejected[x] {
+					o.Viol("C05|history-picked-ineligible|"+sys.Cfg.LoadBalancer.Strategy, fmt.Sprintf("%s after %v: NextBackend returned %q (ejected=%v, member=%v)", sys.Cfg.LoadBalancer.Strategy, ops, x, ejected[x], member), map[string]any{"ops": ops})
+					break
+				}
+			}
 			ops = append(ops, fmt.Sprintf("pick x%d", n))
 		case k < 6 && len(names) > 1:
 			name := names[r.Intn(len(names))]
